@@ -143,7 +143,7 @@ PROPS = {
                 "Non-trivial = more than two uses.",
         "exhaustive": False,
         "proved": ["C12_once", "C12_before_script", "C12_before_class", "C12_every_use", "C12_middleware", "C12_independent"],
-        "monitored": ["model events = events parsed from the real output", "property predicate on the real events", "stylesheet endpoint = registered classes"],
+        "monitored": ["two script templates that are different functions never share a function name (known finding for same body / different parameters)", "model events = events parsed from the real output", "property predicate on the real events", "stylesheet endpoint = registered classes"],
         "partial": ["hoisting for arbitrary templates (C02)"],
         "trusted_base": ["harness event parser", "Go map semantics of contextValue.ss"],
         "assumptions": STD_ASSUME,
@@ -205,7 +205,7 @@ PROPS = {
                 "cancelled context. Non-trivial = a fault inside the document / output larger than the buffer.",
         "exhaustive": True,
         "proved": ["C10_prefix", "C10_nil_full", "C10_fault_reported", "C10_step_error", "C10_ctx", "C10_pool"],
-        "monitored": ["bufio model = real runtime.Buffer (bytes received, per-operation errors)", "prefix / nil-full / fault-reported / error-line / after-failure predicates on real renders"],
+        "monitored": ["a component that fails by itself (also inside a Flush block) reports an error and has written a proper prefix of its non-failing variant", "the concurrent phase shared with C14 (race-built child: overlapping renders incl. CSS components and failed handler requests, every result = the render alone)", "bufio model = real runtime.Buffer (bytes received, per-operation errors)", "prefix / nil-full / fault-reported / error-line / after-failure predicates on real renders"],
         "partial": [],
         "trusted_base": ["bufio.Writer, sync.Pool"],
         "assumptions": STD_ASSUME + ["the writer honours the io.Writer contract (a short write returns an error)"],
@@ -344,7 +344,7 @@ PROPS = {
                 "chunks then fail under 3 configurations. Non-trivial = the component wrote something and then failed.",
         "exhaustive": True,
         "proved": ["C11_main", "C11_success", "C11_failure", "C11_default_error", "C11_stream_contrast", "C11_wiring_pinned (T1)"],
-        "monitored": ["model = real templ.Handler on httptest.ResponseRecorder: status, Content-Type, body"],
+        "monitored": ["the concurrent phase shared with C14 (overlapping requests after failed buffered requests)", "model = real templ.Handler on httptest.ResponseRecorder: status, Content-Type, body"],
         "partial": [],
         "trusted_base": ["net/http ResponseWriter / http.Error semantics", "httptest.ResponseRecorder"],
         "assumptions": STD_ASSUME,
@@ -548,7 +548,7 @@ PROPS = {
         "proved": ["C04_main: sanitize s = s -> browser (WHATWG) scheme is none or allow-listed (or s is the failure URL), for every byte string",
                    "C04_else: any other input is replaced by the failure URL",
                    "C04_schemes_pinned / C04_failedURL_pinned: the tables regenerated from url.go equal the statement's lists"],
-        "monitored": ["model = real templ.URL on every explored string", "okPair(s, templ.URL(s)) evaluated in Lean on the real outputs"],
+        "monitored": ["href / action supplied through spread attributes (known finding)", "model = real templ.URL on every explored string", "okPair(s, templ.URL(s)) evaluated in Lean on the real outputs"],
         "partial": ["'href/action only through the safe-URL type' is a Go type-checker fact: observed by C02's compiled batches (negative program), not proved"],
         "trusted_base": ["strings.IndexRune/ContainsRune on ASCII = byte search; strings.EqualFold against ASCII literals modelled with simple folding (U+017F, U+212A)",
                          "WHATWG URL scheme-state specification transcribed by hand (Whatwg.scheme)"],
